@@ -28,6 +28,7 @@ class Gen:
         self.weights = weights or {}
         self.nname = 0
         self.max_nodes = max_nodes
+        self.no_finally = False
 
     def nid(self):
         i = self.next_id
@@ -73,8 +74,8 @@ class Gen:
             els = self.body(d, in_loop, in_func) if r.random() < 0.3 else None
             return [k, i, self.body(d, True, in_func), els]
         if k == "try":
-            nh = r.randint(0, 2)
-            fin = self.body(d, in_loop, in_func) if (nh == 0 or r.random() < 0.4) else None
+            nh = r.randint(1, 2) if self.no_finally else r.randint(0, 2)
+            fin = None if self.no_finally else (self.body(d, in_loop, in_func) if (nh == 0 or r.random() < 0.4) else None)
             handlers = [[self.nid(), self.body(d, in_loop, in_func)] for _ in range(nh)]
             els = self.body(d, in_loop, in_func) if (nh > 0 and r.random() < 0.3) else None
             return ["try", i, self.body(d, in_loop, in_func), handlers, els, fin]
